@@ -112,7 +112,9 @@ pub fn prepare_to_read_rdata(
     cursor: usize,
     rdlength: u16,
 ) -> Result<&[u8], ReadRdataError> {
-    let end = cursor + rdlength as usize;
+    let end = cursor
+        .checked_add(rdlength as usize)
+        .ok_or(ReadRdataError::UnexpectedEom)?;
     if end > message.len() {
         Err(ReadRdataError::UnexpectedEom)
     } else {
